@@ -139,5 +139,19 @@ func FamilyOddities() []*Conv {
 			add("enum_transform_config_"+fmt.Sprint(n), "source PFXColA", "PFXColB", enums, []string{"enum:unknown @panic"}, []string{"enum:transform " + cfg})
 		}
 	}
+	// universe types (error) next to an enum:exclude line: the exclude patterns are matched against package paths
+	add("error_field_with_enum_exclude", "source PFXIn", "PFXOut", "type PFXIn struct {\n\tCause error\n\tN int\n}\ntype PFXOut struct {\n\tCause error\n\tN int\n}\n", []string{"enum:exclude .*:Color"}, nil)
+	add("error_field_with_enum_exclude_skipcopy", "source PFXIn", "PFXOut", "type PFXIn struct {\n\tCause error\n\tN int\n}\ntype PFXOut struct {\n\tCause error\n\tN int\n}\n", []string{"enum:exclude .*:Color", "skipCopySameType"}, nil)
+	add("map_path_with_empty_elements", "source PFXIn", "PFXOut", "type PFXN struct{ V int }\ntype PFXIn struct{ Nested PFXN }\ntype PFXOut struct{ Value int }\n", nil, []string{"map Nested.. Value"})
+	// an unnamed interface that embeds an interface of another package next to an explicit method of the same bare
+	// (unexported) name - two different methods: the type is rendered with both
+	for _, f := range []string{"struct", "function"} {
+		out = append(out, &Conv{ID: "odd/interface_embedding_foreign_unexported_method/" + f, Family: "odd", Format: f,
+			Params: "source []interface {\n\t\tpfxdep.Sealed\n\t\tsealed()\n\t}", Results: "[]interface {\n\t\tpfxdep.Sealed\n\t\tsealed()\n\t}",
+			Aux:       map[string]string{"pfxdep": "package pfxdep\n\ntype Sealed interface {\n\tsealed()\n}\n\ntype Impl struct{}\n\nfunc (Impl) sealed() {}\n"},
+			Imports:   []string{`pfxdep "corpus/GRP/pfxdep"`},
+			ConvLines: []string{"skipCopySameType", "output:file ./pfxsealed.gen.go", "output:package corpus/GRP"},
+			Spec:      &Spec{SkipCopy: true}, Solo: true, AnyOutcome: true, OutInInput: true})
+	}
 	return out
 }
